@@ -28,6 +28,7 @@ def base_cases(seed, per_module):
     """seeded sample of the other modules' quick-tier cases, one representative per (family, type)."""
     rng = random.Random(seed * 7 + 1)
     out = []
+    findings = load_known_findings()
     for m in SOURCES:
         try:
             mod = importlib.import_module('units.' + m)
@@ -40,6 +41,7 @@ def base_cases(seed, per_module):
         fam = {}
         for c in cs:
             if c.bounded or getattr(c, 'safety_only', False) or c.cfg.macros or c.cfg.checks: continue
+            if any(f['prop'] == c.prop and f['case'].fullmatch(c.cid) for f in findings): continue   # recorded defect: reported by its own property
             parts = c.cid.split('/')
             key = tuple(parts[1:3])
             fam.setdefault(key, []).append(c)
